@@ -240,11 +240,15 @@ def try_replay(scratch, cfg, cdir, h, fullnames, logf):
     for mod in cfg.get("module", []):
         name = "__verif_" + re.sub(r"\W", "_", os.path.splitext(os.path.basename(mod["source"]))[0])
         p = os.path.join(scratch, os.path.dirname(mod["file"]), name + ".rs")
-        if re.search(r"\bfn\s+" + re.escape(rname) + r"\b", open(p).read()):
+        if os.path.exists(p) and re.search(r"\bfn\s+" + re.escape(rname) + r"\b", open(p).read()):
             target = p
     if not target and cfg.get("module"):
-        # macro-generated harness: use the first module (fullnames() applies the same rule)
+        # macro-generated harness: the module named by the harness's `module` key, else the first
+        # module (fullnames() applies the same rule)
         mod = cfg["module"][0]
+        for m_ in cfg["module"]:
+            if h.get("module") and os.path.splitext(os.path.basename(m_["source"]))[0] == h["module"]:
+                mod = m_
         name = "__verif_" + re.sub(r"\W", "_", os.path.splitext(os.path.basename(mod["source"]))[0])
         target = os.path.join(scratch, os.path.dirname(mod["file"]), name + ".rs")
     if not target:
@@ -355,6 +359,7 @@ def main():
     weave_summary = {}
     verus_results = []
     results = {}
+    isolated_module = {}
     try:
         try:
             weave.sync(scratch)
@@ -371,6 +376,42 @@ def main():
             h["_full"] = fullnames.get(h["name"], h["name"])
         if harnesses:
             results = run_kani(scratch, cfg, cdir, harnesses, logf, jobs)
+            # ---- module isolation: when the woven crate does not compile (e.g. the signature of a
+            # function under contract changed), re-run each harness module on its own so that the
+            # modules that still compile are decided; the others stay undecided (exit 2).
+            mods = [os.path.splitext(os.path.basename(m["source"]))[0] for m in cfg.get("module", [])
+                    if not m.get("shared")]
+            if len(mods) > 1 and any(results.get(h["name"], {}).get("status") == "COMPILE_ERROR"
+                                     for h in harnesses):
+                def module_of(h):
+                    full = h.get("_full", "")
+                    for mname in mods:
+                        if "::__verif_" + re.sub(r"\W", "_", mname) + "::" in full:
+                            return mname
+                    return None
+                isolated = {}
+                for mname in mods:
+                    hs = [h for h in harnesses if module_of(h) == mname]
+                    if not hs:
+                        continue
+                    log(f"NOTE property={prop}: woven crate does not compile; isolating harness module {mname}")
+                    try:
+                        weave.sync(scratch)
+                        weave.weave(scratch, cfg, cdir, only_modules={mname})
+                    except (rustscan.LostAnchor, weave.WeaveError) as e:
+                        continue
+                    r2 = run_kani(scratch, cfg, cdir, hs, logf, jobs)
+                    for h in hs:
+                        isolated[h["name"]] = r2.get(h["name"], results.get(h["name"]))
+                        isolated_module[h["name"]] = mname
+                    for k, v in r2.get("_meta", {}).items():
+                        if k == "stubs":
+                            results.setdefault("_meta", {}).setdefault("stubs", [])
+                            results["_meta"]["stubs"] = sorted(set(results["_meta"]["stubs"]) | set(v))
+                        else:
+                            results.setdefault("_meta", {})[f"{k} (isolated {mname})"] = v
+                results.update(isolated)
+                weave_summary["module_isolation"] = sorted(isolated)
 
         # ---- Verus route ----
         if cfg.get("verus") and not any(u["obligation"] == "weave" for u in undecided):
@@ -386,6 +427,24 @@ def main():
             import extract  # noqa: E402
             for recipe in cfg["standalone"]:
                 sr = extract.run_standalone(recipe, cfg, cdir, scratch, logf, parse_result_file,
+                                            classify_failed, tier)
+                verus_results.append(sr)
+
+        # ---- Route S recipes shared with another property (e.g. C22 re-runs C16's evaluator
+        # harnesses for panic-freedom): [[import_standalone]] from = "C16", name = "..", harnesses = [..]
+        if cfg.get("import_standalone") and not any(u["obligation"] == "weave" for u in undecided):
+            import extract  # noqa: E402
+            for imp in cfg["import_standalone"]:
+                ocfg, ocdir = load_cfg(imp["from"])
+                rec = next((r for r in ocfg.get("standalone", []) if r["name"] == imp["name"]), None)
+                if rec is None:
+                    undecided.append({"obligation": f"import:{imp['from']}:{imp['name']}", "reason": "recipe not found"})
+                    continue
+                rec = dict(rec)
+                want = set(imp.get("harnesses", []))
+                if want:
+                    rec["harness"] = [dict(h, tier="quick") for h in rec.get("harness", []) if h["name"] in want]
+                sr = extract.run_standalone(rec, ocfg, ocdir, scratch, logf, parse_result_file,
                                             classify_failed, tier)
                 verus_results.append(sr)
 
@@ -472,6 +531,9 @@ def main():
             elif len(replayed_harnesses) >= int(cfg.get("max_replays", 2)):
                 info = {"replayed_natively": False, "notes": ["replay budget exhausted (max_replays)"]}
             elif h["kind"] != "verus":
+                if h["name"] in isolated_module:
+                    weave.sync(scratch)
+                    weave.weave(scratch, cfg, cdir, only_modules={isolated_module[h["name"]]})
                 info = try_replay(scratch, cfg, cdir, h, fullnames, logf)
                 replayed_harnesses[rkey] = info
             elif h.get("replay"):
